@@ -29,7 +29,7 @@ Fixpoint lookup3 (t : list (float * float * float)) (x y : float) : float :=
 def correspond(ctx):
     rng, tier = ctx["rng"], ctx["tier"]
     npr = rng.nprng()
-    n = 40 if tier == "quick" else 300
+    n = 40 if tier == "quick" else 1500
     cases, meta = [], []
     for k in range(n):
         nb = rng.randint(1, 5); R, C = nb * rng.randint(1, 5), nb * rng.randint(1, 5)
